@@ -117,6 +117,7 @@ type REvent struct {
 	HdrCheck   bool   `json:"hdrCheck"`
 	Group      string `json:"group"`
 	GClause    string `json:"groupClause"`
+	Failing    bool   `json:"failing"`    // the source is set up to fail (C15)
 	WantLen    int    `json:"wantLen"`    // >= 0: the payload an encoder was asked to write into this stream / member
 	WantDigest string `json:"wantDigest"` // its digest
 	// Src
@@ -532,6 +533,7 @@ func execReaderCase(c *RCase, arch int, emit func(interface{})) {
 			if b.GClause == "" {
 				b.GClause = "NONE.group"
 			}
+			b.Failing = seg.Src.FailAt >= 0 || seg.Src.After == "error"
 			b.WantLen = -1
 			if payloads != nil {
 				var want []byte
